@@ -505,3 +505,81 @@ Proof.
       assert (c = c0) by (apply (cfg_same cfg); auto; congruence). subst c.
       destruct (Nat.leb_spec o i); [lia|]. reflexivity.
 Qed.
+
+(* ---- corollaries ------------------------------------------------------------------------------------------ *)
+Lemma scale_error : forall fresh m nm n, (n < 1)%Z \/ mfind nm m = None -> scale fresh m nm n = (Err, m, [], []).
+Proof.
+  intros fresh m nm n [H|H]; unfold scale.
+  - destruct (Z.ltb_spec n 1); [reflexivity|lia].
+  - destruct (n <? 1)%Z; [reflexivity|]. rewrite H. reflexivity.
+Qed.
+
+(* who is terminated and who is launched *)
+Lemma scale_ok_effects : forall fresh m nm n e, (1 <= n)%Z -> mfind nm m = Some e ->
+  scale fresh m nm n =
+    (Ok, scale_proj fresh m nm n,
+     if Z.to_nat n <? count_base (base e) m then map inst (filter (sd_drop (base e) (Z.to_nat n)) m) else [],
+     if Z.to_nat n <? count_base (base e) m then []
+     else if count_base (base e) m <? Z.to_nat n
+          then map fresh (seq (count_base (base e) m) (Z.to_nat n - count_base (base e) m)) else []).
+Proof.
+  intros fresh m nm n e Hn Hf. unfold scale_proj, scale. destruct (Z.ltb_spec n 1); [lia|]. rewrite Hf.
+  destruct (Z.to_nat n <? count_base (base e) m).
+  - unfold scale_down. reflexivity.
+  - destruct (count_base (base e) m <? Z.to_nat n); reflexivity.
+Qed.
+
+(* run-time identities: untouched for other processes and for the replicas that exist before and after *)
+Lemma rt_after_other : forall b o fresh rt b' i, b' <> b -> rt_after b o fresh rt b' i = rt b' i.
+Proof. intros. unfold rt_after. apply beq_neq in H. rewrite H. reflexivity. Qed.
+Lemma rt_after_kept : forall b o fresh rt i, i < o -> rt_after b o fresh rt b i = rt b i.
+Proof. intros. unfold rt_after. destruct (Nat.leb_spec o i); [lia|]. rewrite andb_false_r. reflexivity. Qed.
+Lemma rt_after_added : forall b o fresh rt i, o <= i -> rt_after b o fresh rt b i = (fresh i, fresh i, 0).
+Proof. intros. unfold rt_after. rewrite beq_refl. destruct (Nat.leb_spec o i); [reflexivity|lia]. Qed.
+
+Definition shape (cfg : list cfgt) : list (bytes * N) := map (fun c => (cbase c, snd c)) cfg.
+
+Lemma shape_set_k : forall b k cfg, shape (set_k b k cfg) = shape cfg.
+Proof. intros. unfold shape, set_k. rewrite map_map. apply map_ext. intros c. destruct (beq (cbase c) b); reflexivity. Qed.
+
+Lemma count_set_k : forall b k cfg c, In c (set_k b k cfg) -> cbase c = b -> ccount c = k.
+Proof.
+  intros b k cfg c Hc E. unfold set_k in Hc. apply in_map_iff in Hc as [c0 [<- _]].
+  destruct (beq (cbase c0) b) eqn:B; [reflexivity|]. apply beq_neq in B. contradiction.
+Qed.
+
+(* histories: induction over the request list *)
+Theorem run_reqs_gen : forall reqs fresh i cfg rt m,
+  cfg_ok cfg -> Permutation m (gen cfg rt) ->
+  exists cfg' rt', cfg_ok cfg' /\ shape cfg' = shape cfg /\ Permutation (run_reqs fresh i m reqs) (gen cfg' rt').
+Proof.
+  induction reqs as [|[nm n] r IH]; intros fresh i cfg rt m OK P; cbn [run_reqs].
+  - exists cfg, rt. auto.
+  - destruct (Z.ltb_spec n 1) as [Hn|Hn].
+    + unfold scale_proj. rewrite scale_error by (left; exact Hn). apply (IH fresh (S i) cfg rt m); assumption.
+    + destruct (mfind nm m) as [e|] eqn:Hf.
+      * destruct (scale_gen (fresh i) cfg rt m nm n e OK P Hf Hn) as [P' OK'].
+        destruct (IH fresh (S i) _ _ _ OK' P') as [cfg' [rt' [A [B C]]]].
+        exists cfg', rt'. split; [exact A|]. split; [rewrite B; apply shape_set_k|exact C].
+      * unfold scale_proj. rewrite scale_error by (right; exact Hf). apply (IH fresh (S i) cfg rt m); assumption.
+Qed.
+
+(* the loader model is gen with the initial run-time data *)
+Definition norm_cfg (cfg : list cfgt) : list cfgt := map (fun c => (cbase c, norm_reps (ccount c), snd c)) cfg.
+Lemma load_is_gen : forall cfg i0,
+  load cfg i0 = gen (norm_cfg cfg) (fun b i => (i0 b i, i0 b i, 0)).
+Proof.
+  intros cfg i0. unfold load, gen, norm_cfg. rewrite flat_map_concat_map, flat_map_concat_map, map_map. f_equal.
+  apply map_ext. intros [[b k] t]. reflexivity.
+Qed.
+
+Lemma sep_first : forall x y b b', x <> y -> sep (x :: b) (y :: b').
+Proof.
+  intros x y b b' H r i r' i' E. unfold replica_name in E.
+  destruct (r <=? 1), (r' <=? 1); cbn in E; inversion E; contradiction.
+Qed.
+
+Lemma replica_name_N_eq : forall b r i, replica_name b r i = replica_name_N b (N.of_nat r) (N.of_nat i).
+Proof.
+  intros. unfold replica_name, replica_name_N. destruct (Nat.leb_spec r 1), (N.leb_spec (N.of_nat r) 1); auto; lia.
+Qed.
